@@ -143,7 +143,7 @@ func (c *Ctx) movesCursor(f *ssa.Function) bool {
 		return false
 	}
 	pt, ok := f.Signature.Recv().Type().(*types.Pointer)
-	if !ok || !types.Identical(pt.Elem(), c.A.ParserT) {
+	if !ok || !inFam(c.A.ParserFam, pt.Elem()) {
 		return false
 	}
 	return c.writesParser(f, map[*ssa.Function]bool{})
@@ -161,7 +161,7 @@ func (c *Ctx) writesParser(f *ssa.Function, _ map[*ssa.Function]bool) bool {
 					switch in := in.(type) {
 					case *ssa.Store:
 						if fa, ok := in.Addr.(*ssa.FieldAddr); ok {
-							if p2, ok := fa.X.Type().Underlying().(*types.Pointer); ok && types.Identical(p2.Elem(), c.A.ParserT) {
+							if p2, ok := fa.X.Type().Underlying().(*types.Pointer); ok && inFam(c.A.ParserFam, p2.Elem()) {
 								memo[g] = true
 							}
 						}
@@ -949,7 +949,7 @@ func init() {
 func ruleSliceProjects(c *Ctx) *RuleResult {
 	r := &RuleResult{Doc: "wherever the parser tests a node for being an ASTSlice, every success return on the slice edge is an ASTProjection over the index expression (a slice with nothing after it still projects the identity, which drops nulls)", Floor: 1}
 	for _, fn := range allFuncs(c.SLib) {
-		if !c.movesCursor(fn) && fn != c.A.Nud && fn != c.A.Led {
+		if !c.scopeOf(fn)["parse"] {
 			continue
 		}
 		n := 0
